@@ -160,6 +160,22 @@ def build_jobs():
             if rng.random() < 0.5:
                 jobs.append({"kind": "acl-shared", "name": "%s vendor-acl fwd" % s["name"], "hw": s["hw"], "old": s["old"],
                              "new": s["new"], "acl": vendor_acl[s["vendor"]]})
+    # VLAN lists on cisco-family trunks: few distinct line texts, so that the same lines recur across jobs and models
+    from collections import OrderedDict as odict
+    pool = ["switchport trunk allowed vlan 1-5", "switchport trunk allowed vlan add 10", "switchport trunk allowed vlan add 20-25",
+            "switchport trunk allowed vlan add 30,40"]
+    for model in ("Cisco Catalyst 3750", "Cisco Nexus 3172"):
+        hw = HardwareView(model, None)
+        for n in range(14):
+            first = pool[0] if rng.random() < 0.8 else "switchport trunk allowed vlan 2,7"
+            def tree(lines):
+                return odict([("interface Ethernet1/1", odict([("switchport mode trunk", odict())] + [(l, odict()) for l in lines]))])
+            old_lines = [first] + [l for l in pool[1:] if rng.random() < 0.6]
+            new_lines = [first] + [l for l in old_lines[1:] if rng.random() < 0.5] + [l for l in pool[1:] if l not in old_lines and rng.random() < 0.3]
+            if old_lines == new_lines:
+                new_lines = new_lines[:-1] if len(new_lines) > 1 else new_lines + [pool[1]]
+            jobs.append({"kind": "vlan-lists", "name": "trunk %s #%d" % (model.split()[1], n), "hw": hw, "old": tree(old_lines),
+                         "new": tree(new_lines), "acl": None})
     for k in range(18):
         vendor, model = SYN_VENDORS[k % len(SYN_VENDORS)]
         hw = HardwareView(model % k, None)
